@@ -60,13 +60,16 @@ def enum_queries(seed):
     def valid_token(t):
         return re.fullmatch(r"[\w+.*-]+", t) is not None
 
-    def run(q, want_fn):
+    def run(q, want_fn, must_parse=False):
         nonlocal cases
         cases += 1
         try:
             r = parse_match(q)
-        except ParseError:
+        except ParseError as e:
             stat["rejected"] += 1
+            if must_parse:   # a well-formed query: rejecting it selects nothing where packages are expected
+                want = sorted(p.cpvstr for p in pkgs if want_fn(p))
+                note({"query": q}, f"parse_match({q!r}) rejects a well-formed query ({e}); it should select {want[:6]}{'...' if len(want) > 6 else ''} ({len(want)} packages)")
             return "rejected"
         except Exception as e:
             stat["crash"] += 1
@@ -106,17 +109,21 @@ def enum_queries(seed):
                 return ver_cmp(p.version, None, ver, None) == 0
             return cmpf(ver_cmp(p.version, p.revision, ver, None))
         for g in ("a*", "*b", "*", "gtk*"):
-            run(f"{op}*/{g}-1.5", lambda p, g=g, vmatch=vmatch: G(p.package, g) and vmatch(p, "1.5"))
-            run(f"{op}a*/{g}-2", lambda p, g=g, vmatch=vmatch: G(p.category, "a*") and G(p.package, g) and vmatch(p, "2"))
-        run(f"{op}ab-2", lambda p, vmatch=vmatch: p.package == "ab" and vmatch(p, "2"))
+            run(f"{op}*/{g}-1.5", lambda p, g=g, vmatch=vmatch: G(p.package, g) and vmatch(p, "1.5"), must_parse=True)
+            run(f"{op}a*/{g}-2", lambda p, g=g, vmatch=vmatch: G(p.category, "a*") and G(p.package, g) and vmatch(p, "2"), must_parse=True)
+        run(f"{op}ab-2", lambda p, vmatch=vmatch: p.package == "ab" and vmatch(p, "2"), must_parse=True)
+        run(f"{op}gtk-1.5", lambda p, vmatch=vmatch: p.package == "gtk" and vmatch(p, "1.5"), must_parse=True)
+        run(f"{op}ab-2:a+b", lambda p, vmatch=vmatch: p.package == "ab" and vmatch(p, "2") and p.slot == "a+b", must_parse=True)
+        run(f"{op}a-1.5::gentoo", lambda p, vmatch=vmatch: p.package == "a" and vmatch(p, "1.5") and p.repo.repo_id == "gentoo", must_parse=True)
+        run(f"{op}a/ab-2", lambda p, vmatch=vmatch: p.category == "a" and p.package == "ab" and vmatch(p, "2"), must_parse=True)
         # ... with a slot and / or a repository on top of the operator and the glob
-        run(f"{op}*/a*-1.5:ab", lambda p, vmatch=vmatch: G(p.package, "a*") and vmatch(p, "1.5") and p.slot == "ab")
-        run(f"{op}*/*-1::other", lambda p, vmatch=vmatch: vmatch(p, "1") and p.repo.repo_id == "other")
+        run(f"{op}*/a*-1.5:ab", lambda p, vmatch=vmatch: G(p.package, "a*") and vmatch(p, "1.5") and p.slot == "ab", must_parse=True)
+        run(f"{op}*/*-1::other", lambda p, vmatch=vmatch: vmatch(p, "1") and p.repo.repo_id == "other", must_parse=True)
         run(f"{op}a*/*b-2:a+b/1.5::other", lambda p, vmatch=vmatch: G(p.category, "a*") and G(p.package, "*b") and vmatch(p, "2") and p.slot == "a+b" and p.subslot == "1.5" and p.repo.repo_id == "other")
     from pkgcore.ebuild.atom import atom
     for s in ("a/ab", ">=a/ab-2", "a/ab:aab", "dev-a/a:ab/a.b", "a/gtk+", "=a.b/ab-1", "a/ab::other"):
         a = atom(s)
-        run(s, lambda p, a=a: a.match(p))
+        run(s, lambda p, a=a: a.match(p), must_parse=True)
     for s in ("gtk+", "a_b", "ab"):
         run(s, lambda p, s=s: p.package == s)
     for s in ("!a/ab", "!!a/ab", "a/*!", "!*"):
